@@ -87,6 +87,28 @@ def run(ctx):
             r.ob(rv.q, txt, ok, "CopyValueTo must receive the escaper as its string function", rv.loc(i))
         else:
             r.ob(rv.q, txt, False, "stream write of unrecognised kind in the {var:} renderer", rv.loc(i))
+    # helpers of the renderer class called from the {var:} renderer (transitively): whatever they write goes out as part of the
+    # {var:} expansion too, so they may only write through the escaper
+    own = {}
+    for g in m.functions:
+        if not g.inst and g.cls == rv.cls and g.cfg:
+            own.setdefault(g.name, []).append(g)
+    seen_h, work_h = set(), [rv]
+    while work_h:
+        cur = work_h.pop()
+        for c in astq.calls(cur):
+            nm_ = cur.call_simple_name(c)
+            rc_ = cur.call_receiver(c)
+            if nm_ in own and nm_ not in seen_h and nm_ != rv.name and (rc_ is None or cur.nodes[cur.strip(rc_)]["k"] == "CXXThisExpr"):
+                seen_h.add(nm_)
+                work_h += own[nm_]
+    for hn in sorted(seen_h):
+        for h in own[hn]:
+            for (i, nm, txt) in stream_effects(h):
+                ctx.note_fn(h)
+                ok_h = nm == "EscapeHTMLSpecialChars"
+                r.ob(h.q, txt, ok_h, "%s is called from the {var:} renderer: %s" % (hn, "escaper call" if ok_h else
+                     "it writes to the stream without the escaper, so this part of a {var:} expansion is not escaped"), h.loc(i))
     if not any(nm == "CopyValueTo" for _, nm, _ in effs):
         r.ob(rv.q, "CopyValueTo", False, "the value is no longer written through CopyValueTo", "Include/Template.hpp:%d" % rv.line)
 
